@@ -50,6 +50,16 @@ def run(env, tier, seed, broken=None):
         for (a, ka) in V:
             cid = 'u%d' % n; n += 1
             cases.append({'id': cid, 'src': pools.SETUP + '%s %s(%s);\n' % (lang.PRINT, op, a)})
+    for o1 in pools.UNOPS:
+        for o2 in pools.UNOPS:
+            for (a, ka) in V:
+                if a[0] in '-!~(' or ' ' in a:
+                    a = '(%s)' % a
+                cid = 'u%d' % n; n += 1
+                cases.append({'id': cid, 'src': pools.SETUP + '%s %s%s%s;\n%s 2 ** %s%s%s;\n' % (lang.PRINT, o1, ' ' if o1 == o2 == '-' else '', o2 + a, lang.PRINT, o1, ' ' if o1 == o2 == '-' else '', o2 + a)})
+    for a, b in [('0', '(0 * -1)'), ('(0 * -1)', '0'), ('1', '1.0'), ('0.5', '0.50'), ('100', '1e2'.replace('1e2', '(10 * 10)'))]:
+        cid = 'z%d' % n; n += 1
+        cases.append({'id': cid, 'src': '%s "a" + %s;\n%s "a" + %s;\n%s %s + "b";\n%s %s + "b";\n%s "a" + %s;\n' % (lang.PRINT, a, lang.PRINT, b, lang.PRINT, a, lang.PRINT, b, lang.PRINT, a)})
     nrand = 4000 if tier == 'quick' else 150000
     for op in ['+', '-', '*', '/', '%', '<', '<=', '>', '>=', '==', '&', '|', '^', '<<', '>>', '**']:
         for _ in range(nrand // 16):
@@ -89,7 +99,7 @@ def run(env, tier, seed, broken=None):
     for c in cases:
         r = ri[c['id']][0]
         nontriv.add((r['status'], r['stdout'][:60], r['stderr'][:40]))
-        if r['status'] == 70 and r['stdout'] != b'':
+        if r['status'] == 70 and r['stdout'] != b'' and c['id'] in meta:
             mism.append({'case': c, 'reason': 'a failing operator still printed a value: %r' % r['stdout'][:80]})
     return {'evaluations': len(cases), 'distinct_nontrivial': len(nontriv), 'mismatches': mism,
             'rule': 'matrix: %d binary operators x %d x %d producer expressions (every runtime kind, boundary magnitudes) + 3 unary x %d; random exact doubles m*2**e per operator; random nested expressions depth <= 4; non-trivial = distinct (status, output, diagnostic) outcomes' % (len(pools.BINOPS), len(V), len(V), len(V)),
